@@ -481,3 +481,1213 @@ Proof.
     + apply (NR e (or_introl eq_refl)); right; rewrite <- E; apply in_map; exact He'.
   - apply IH; [exact ND'|]. intros e' He' Hin. apply (NR e' (or_intror He')); right; exact Hin.
 Qed.
+
+(** * Views *)
+
+Lemma v_node_names_sort g : v_node_names g = sort_names (node_ids g).
+Proof.
+  unfold v_node_names, nodes_sorted, sort_names, node_ids.
+  apply isort_map; intros x y; reflexivity.
+Qed.
+
+Lemma nodes_sorted_in g n : In n (nodes_sorted g) <-> In n (gnodes g).
+Proof. apply isort_in. Qed.
+
+Lemma v_edges_in g e : In e (v_edges g) <-> In e (gsrc g).
+Proof. apply isort_in. Qed.
+
+Lemma v_node_names_in g x : In x (v_node_names g) <-> In x (node_ids g).
+Proof. rewrite v_node_names_sort; apply sort_names_in. Qed.
+
+Lemma v_nodes_length g : length (v_nodes g) = length (gnodes g).
+Proof. unfold v_nodes, nodes_sorted; rewrite map_length; apply isort_length. Qed.
+
+Lemma v_edges_length g : length (v_edges g) = length (gsrc g).
+Proof. apply isort_length. Qed.
+
+Lemma bind_ok A B (r : res A) (f : A -> res B) v :
+  bind r f = Ok v -> exists x, r = Ok x /\ f x = Ok v.
+Proof. destruct r as [x|x]; simpl; [intros H; exists x; auto|discriminate]. Qed.
+
+Lemma perm_of_incl A B (f : A -> B) l l' :
+  NoDup (map f l) -> length l' = length l ->
+  (forall x, In x l -> exists x', In x' l' /\ f x = f x') ->
+  Permutation (map f l) (map f l').
+Proof.
+  intros ND L H. apply NoDup_Permutation_bis; [exact ND|rewrite !map_length; lia|].
+  intros y Hy; apply in_map_iff in Hy; destruct Hy as (x & <- & Hx).
+  destruct (H x Hx) as (x' & Hx' & ->); apply in_map; exact Hx'.
+Qed.
+
+Lemma perm_map_in A B (f : A -> B) l l' :
+  Permutation (map f l) (map f l') -> forall x, In x l -> exists x', In x' l' /\ f x = f x'.
+Proof.
+  intros P x Hx. assert (Hy : In (f x) (map f l')) by (eapply Permutation_in; [exact P|apply in_map, Hx]).
+  apply in_map_iff in Hy; destruct Hy as (x' & E & Hx'); exists x'; split; [exact Hx'|symmetry; exact E].
+Qed.
+
+Definition cnode_leb (a b : name * vtype * meta) : bool := name_leb (fst (fst a)) (fst (fst b)).
+
+Lemma canon_nodes_sorted g :
+  map canon_node (nodes_sorted g) = isort cnode_leb (map canon_node (gnodes g)).
+Proof. unfold nodes_sorted; apply isort_map; intros x y; reflexivity. Qed.
+
+Lemma isort_cnode_perm l1 l2 :
+  NoDup (map (fun a : name * vtype * meta => fst (fst a)) l1) -> Permutation l1 l2 ->
+  isort cnode_leb l1 = isort cnode_leb l2.
+Proof.
+  exact (@isort_perm_eq_key _ _ (fun a : name * vtype * meta => fst (fst a)) name_leb
+           name_leb_total name_leb_trans name_leb_antisym l1 l2).
+Qed.
+
+Lemma isort_cedge_perm (l1 l2 : list ((name * name) * etype)) :
+  NoDup (map fst l1) -> Permutation l1 l2 -> isort cedge_leb l1 = isort cedge_leb l2.
+Proof.
+  exact (@isort_perm_eq_key _ _ (@fst (name * name) etype) pair_leb
+           pair_leb_total pair_leb_trans pair_leb_antisym l1 l2).
+Qed.
+
+Lemma isort_dedge_perm (l1 l2 : list (((name * name) * etype) * meta)) :
+  NoDup (map (fun a => fst (fst a)) l1) -> Permutation l1 l2 ->
+  isort dedge_leb l1 = isort dedge_leb l2.
+Proof.
+  exact (@isort_perm_eq_key _ _ (fun a : ((name * name) * etype) * meta => fst (fst a)) pair_leb
+           pair_leb_total pair_leb_trans pair_leb_antisym l1 l2).
+Qed.
+
+(** * The decomposition of [graph_eqb] *)
+
+Definition node_step (k : kind) (deep : bool) (h : graph) (n : node) : res bool :=
+  match get_node h (nid n) with None => Err EKey | Some n' => node_eqb k deep n n' end.
+Definition edge_step (k : kind) (deep : bool) (g h : graph) (e : edge) : res bool :=
+  bind (other_edge h e) (fun e' => edge_eqb k deep g h e e').
+
+Definition tests (g h : graph) : Prop :=
+  length (v_nodes g) = length (v_nodes h) /\ length (v_edges g) = length (v_edges h)
+  /\ name_set_eqb (v_node_names g) (v_node_names h) = true
+  /\ upair_set_eqb (map edge_key (v_edges g)) (map edge_key (v_edges h)) = true.
+
+Lemma graph_eqb_true_iff k deep g h :
+  graph_eqb k deep g h = Ok true <->
+  tests g h
+  /\ all_res (node_step k deep h) (nodes_sorted g) = Ok true
+  /\ all_res (edge_step k deep g h) (v_edges g) = Ok true.
+Proof.
+  unfold graph_eqb, tests. fold (node_step k deep h) (edge_step k deep g h).
+  destruct (Nat.eqb_spec (length (v_nodes g)) (length (v_nodes h))) as [L1|L1]; simpl;
+    [|split; [discriminate|tauto]].
+  destruct (Nat.eqb_spec (length (v_edges g)) (length (v_edges h))) as [L2|L2]; simpl;
+    [|split; [discriminate|tauto]].
+  destruct (name_set_eqb _ _); simpl; [|split; [discriminate|intros (H & _); decompose [and] H; discriminate]].
+  destruct (upair_set_eqb _ _); simpl; [|split; [discriminate|intros (H & _); decompose [and] H; discriminate]].
+  destruct (all_res (node_step k deep h) (nodes_sorted g)) as [[|]|x].
+  - tauto.
+  - split; [discriminate|intros (_ & H & _); discriminate].
+  - split; [discriminate|intros (_ & H & _); discriminate].
+Qed.
+
+Lemma graph_eqb_total_cond k deep g h :
+  (tests g h -> forall n, In n (nodes_sorted g) -> exists b, node_step k deep h n = Ok b) ->
+  (tests g h -> forall e, In e (v_edges g) -> exists b, edge_step k deep g h e = Ok b) ->
+  exists b, graph_eqb k deep g h = Ok b.
+Proof.
+  unfold graph_eqb, tests. fold (node_step k deep h) (edge_step k deep g h).
+  destruct (Nat.eqb_spec (length (v_nodes g)) (length (v_nodes h))) as [L1|L1]; simpl;
+    [|eexists; reflexivity].
+  destruct (Nat.eqb_spec (length (v_edges g)) (length (v_edges h))) as [L2|L2]; simpl;
+    [|eexists; reflexivity].
+  destruct (name_set_eqb _ _); simpl; [|eexists; reflexivity].
+  destruct (upair_set_eqb _ _); simpl; [|eexists; reflexivity].
+  intros Hn He.
+  destruct (all_res_total (node_step k deep h) (nodes_sorted g) (Hn (conj L1 (conj L2 (conj eq_refl eq_refl)))))
+    as ([|] & ->); [|eexists; reflexivity].
+  apply all_res_total, He; auto.
+Qed.
+
+Unset Strict Implicit.
+
+Section Eq.
+  Variable parse : name -> option (name * Z).
+
+  (** what the proofs use of the invariant *)
+  Record GOK (k : kind) (g : graph) : Prop := {
+    ok_nodes : NoDup (node_ids g);
+    ok_keys : NoDup (edge_keys g);
+    ok_ends : forall e, In e (gsrc g) -> In (esrc e) (node_ids g) /\ In (edst e) (node_ids g);
+    ok_norev : forall e, In e (gsrc g) -> ~ In (edst e, esrc e) (edge_keys g);
+    ok_tags : k = TS -> forall n, In n (gnodes g) ->
+      exists v l, parse (nid n) = Some (v, l)
+                  /\ meta_var (nmeta n) = Some v /\ meta_lag (nmeta n) = Some l
+  }.
+
+  Lemma Inv_GOK k g : Inv parse k g -> GOK k g.
+  Proof.
+    intros I; constructor.
+    - exact (inv_nodup_nodes I).
+    - exact (inv_nodup_keys I).
+    - exact (inv_endpoints I).
+    - exact (inv_noreverse I).
+    - intros Hk n Hn. exact (ts_nodeok (inv_ts I Hk) n Hn).
+  Qed.
+
+  Lemma GOK_tagged k g n : GOK k g -> In n (gnodes g) -> tagged k n.
+  Proof.
+    intros G Hn Hk. destruct (ok_tags G Hk Hn) as (v & l & _ & Hv & Hl); exists v, l; auto.
+  Qed.
+
+  Lemma GOK_get_node k g x :
+    GOK k g -> In x (node_ids g) -> exists n, get_node g x = Some n /\ In n (gnodes g) /\ nid n = x.
+  Proof.
+    intros G Hx. destruct (find_node_in _ _ Hx) as (n & F). exists n; split; [exact F|].
+    apply find_node_some in F; exact F.
+  Qed.
+
+  Lemma GOK_get_node_of k g n : GOK k g -> In n (gnodes g) -> get_node g (nid n) = Some n.
+  Proof. intros G Hn; apply find_node_nodup; [exact (ok_nodes G)|exact Hn]. Qed.
+
+  Lemma GOK_same_id_tags k g h a b :
+    GOK k g -> GOK k h -> In a (gnodes g) -> In b (gnodes h) -> nid a = nid b -> k = TS ->
+    meta_var (nmeta a) = meta_var (nmeta b) /\ meta_lag (nmeta a) = meta_lag (nmeta b).
+  Proof.
+    intros Gg Gh Ha Hb E Hk.
+    destruct (ok_tags Gg Hk Ha) as (v & l & P & -> & ->).
+    destruct (ok_tags Gh Hk Hb) as (v' & l' & P' & -> & ->).
+    rewrite E in P; rewrite P in P'; inversion P'; auto.
+  Qed.
+
+  Lemma other_edge_ok h e e' :
+    other_edge h e = Ok e' ->
+    In e' (gsrc h) /\ (edge_key e' = edge_key e \/ edge_key e' = (edst e, esrc e)).
+  Proof.
+    unfold other_edge, edge_at.
+    destruct (find_edge (esrc e) (edst e) (gsrc h)) as [x|] eqn:F1.
+    - intros [= <-]; apply find_edge_some in F1; destruct F1 as [Hin E]; split; [exact Hin|left; exact E].
+    - destruct (find_edge (edst e) (esrc e) (gsrc h)) as [x|] eqn:F2; [|discriminate].
+      intros [= <-]; apply find_edge_some in F2; destruct F2 as [Hin E]; split; [exact Hin|right; exact E].
+  Qed.
+
+  Lemma other_edge_found k h e e' :
+    GOK k h -> In e' (gsrc h) ->
+    (edge_key e' = edge_key e \/ edge_key e' = (edst e, esrc e)) -> other_edge h e = Ok e'.
+  Proof.
+    intros G Hin [E|E]; unfold other_edge, edge_at.
+    - assert (E1 : esrc e' = esrc e) by (unfold edge_key in E; congruence).
+      assert (E2 : edst e' = edst e) by (unfold edge_key in E; congruence).
+      rewrite <- E1, <- E2, (find_edge_nodup _ _ (ok_keys G) Hin); reflexivity.
+    - destruct (find_edge (esrc e) (edst e) (gsrc h)) as [x|] eqn:F1.
+      + apply find_edge_some in F1; destruct F1 as [Hx Ex]. exfalso.
+        apply (ok_norev G Hx).
+        assert (E1 : esrc x = esrc e) by (unfold edge_key in Ex; congruence).
+        assert (E2 : edst x = edst e) by (unfold edge_key in Ex; congruence).
+        rewrite E1, E2, <- E. apply in_map; exact Hin.
+      + assert (E1 : esrc e' = edst e) by (unfold edge_key in E; congruence).
+        assert (E2 : edst e' = esrc e) by (unfold edge_key in E; congruence).
+        rewrite <- E1, <- E2, (find_edge_nodup _ _ (ok_keys G) Hin); reflexivity.
+  Qed.
+
+  (** ** Totality *)
+
+  Lemma node_step_total k deep g h n :
+    GOK k g -> GOK k h -> tests g h -> In n (nodes_sorted g) ->
+    exists b, node_step k deep h n = Ok b.
+  Proof.
+    intros Gg Gh (_ & _ & Hs & _) Hn. unfold node_step.
+    apply nodes_sorted_in in Hn.
+    assert (Hx : In (nid n) (node_ids h)).
+    { apply v_node_names_in. apply (proj1 (name_set_eqb_spec _ _) Hs).
+      apply v_node_names_in. apply in_map; exact Hn. }
+    destruct (GOK_get_node Gh Hx) as (n' & -> & Hn' & _).
+    apply node_eqb_total; [exact (GOK_tagged Gg Hn)|exact (GOK_tagged Gh Hn')].
+  Qed.
+
+  Lemma edge_eqb_total k deep g h e e' :
+    GOK k g -> GOK k h -> In e (gsrc g) -> In e' (gsrc h) ->
+    exists b, edge_eqb k deep g h e e' = Ok b.
+  Proof.
+    intros Gg Gh He He'. unfold edge_eqb. destruct deep; [|eexists; reflexivity].
+    destruct (ok_ends Gg He) as [Hs Hd]. destruct (ok_ends Gh He') as [Hs' Hd'].
+    destruct (GOK_get_node Gg Hs) as (s & -> & Is & _).
+    destruct (GOK_get_node Gg Hd) as (d & -> & Id & _).
+    destruct (GOK_get_node Gh Hs') as (s' & -> & Is' & _).
+    destruct (GOK_get_node Gh Hd') as (d' & -> & Id' & _).
+    pose proof (GOK_tagged Gg Is) as Ts. pose proof (GOK_tagged Gg Id) as Td.
+    pose proof (GOK_tagged Gh Is') as Ts'. pose proof (GOK_tagged Gh Id') as Td'.
+    destruct (@node_eqb_total k true _ _ Ts Ts') as (b1 & ->).
+    destruct (@node_eqb_total k true _ _ Td Td') as (b2 & ->).
+    destruct (@node_eqb_total k true _ _ Ts Td') as (b3 & E3).
+    destruct (@node_eqb_total k true _ _ Td Ts') as (b4 & E4).
+    cbn [bind]. destruct (in_dont_care (ety e) && etype_eqb (ety e) (ety e')).
+    - destruct b1; cbn [negb bind]; [|rewrite E3; cbn [bind]; destruct b3; cbn [negb];
+        [|eexists; reflexivity]];
+        (destruct b2; cbn [negb bind]; [|rewrite E4; cbn [bind]; destruct b4; cbn [negb bind]]);
+        destruct (py_meta_eqb (emeta e) (emeta e')); cbn [negb]; eexists; reflexivity.
+    - cbn [bind]. destruct (negb (negb b1 || negb b2)); cbn [negb]; [|eexists; reflexivity].
+      destruct (py_meta_eqb (emeta e) (emeta e')); cbn [negb]; eexists; reflexivity.
+  Qed.
+
+  Lemma edge_step_total k deep g h e :
+    GOK k g -> GOK k h -> tests g h -> In e (v_edges g) ->
+    exists b, edge_step k deep g h e = Ok b.
+  Proof.
+    intros Gg Gh (_ & _ & _ & Hu) He. unfold edge_step.
+    apply upair_set_eqb_spec in Hu; destruct Hu as [Hu _].
+    destruct (Hu (edge_key e) (in_map _ _ _ He)) as (q & Hq & U).
+    apply in_map_iff in Hq; destruct Hq as (e' & <- & He').
+    apply v_edges_in in He, He'. apply upair_eqb_spec in U.
+    rewrite (@other_edge_found k h e e' Gh He' U); cbn [bind].
+    apply edge_eqb_total; assumption.
+  Qed.
+
+  Lemma graph_eqb_total k deep g h : GOK k g -> GOK k h -> exists b, graph_eqb k deep g h = Ok b.
+  Proof.
+    intros Gg Gh; apply graph_eqb_total_cond; intros T x Hx.
+    - exact (node_step_total deep Gg Gh T Hx).
+    - exact (edge_step_total deep Gg Gh T Hx).
+  Qed.
+  (** ** Characterisation by the canonical form (shallow) *)
+
+  Lemma GOK_canon_pair_nodup k g : GOK k g -> NoDup (map canon_pair (gsrc g)).
+  Proof.
+    intros G; apply canon_pair_nodup; [exact (ok_keys G)|]. intros e He; exact (ok_norev G He).
+  Qed.
+
+  Lemma names_eq_of_set k g h :
+    GOK k g -> GOK k h -> name_set_eqb (v_node_names g) (v_node_names h) = true ->
+    Permutation (node_ids g) (node_ids h).
+  Proof.
+    intros Gg Gh Hs. apply NoDup_Permutation; [exact (ok_nodes Gg)|exact (ok_nodes Gh)|].
+    intros x; rewrite <- !v_node_names_in. apply name_set_eqb_spec; exact Hs.
+  Qed.
+
+  (** what the two loops establish, element-wise *)
+  Lemma node_loop_elim k deep g h :
+    all_res (node_step k deep h) (nodes_sorted g) = Ok true ->
+    forall n, In n (gnodes g) ->
+      exists n', In n' (gnodes h) /\ nid n' = nid n /\ node_eqb k deep n n' = Ok true.
+  Proof.
+    intros H n Hn. apply nodes_sorted_in in Hn.
+    pose proof (proj1 (all_res_true _ _) H n Hn) as S. unfold node_step in S.
+    destruct (get_node h (nid n)) as [n'|] eqn:F; [|discriminate].
+    apply find_node_some in F; destruct F as [Hin E]. exists n'; auto.
+  Qed.
+
+  Lemma edge_loop_elim k deep g h :
+    all_res (edge_step k deep g h) (v_edges g) = Ok true ->
+    forall e, In e (gsrc g) ->
+      exists e', In e' (gsrc h) /\ edge_eqb k deep g h e e' = Ok true.
+  Proof.
+    intros H e He. apply v_edges_in in He.
+    pose proof (proj1 (all_res_true _ _) H e He) as S. unfold edge_step in S.
+    apply bind_ok in S; destruct S as (e' & O & S).
+    apply other_edge_ok in O; destruct O as [Hin _]. exists e'; auto.
+  Qed.
+
+  Lemma graph_eq_canon_fwd k g h :
+    GOK k g -> GOK k h -> graph_eqb k false g h = Ok true -> canon g = canon h.
+  Proof.
+    intros Gg Gh H. apply graph_eqb_true_iff in H.
+    destruct H as ((L1 & L2 & Hs & Hu) & Hn & He). unfold canon; f_equal.
+    - rewrite !v_node_names_sort. apply sort_names_perm_eq. eapply names_eq_of_set; eauto.
+    - apply isort_cedge_perm.
+      + rewrite map_map; simpl. exact (GOK_canon_pair_nodup Gg).
+      + apply perm_of_incl.
+        * apply (NoDup_map_inv fst). rewrite map_map; simpl. exact (GOK_canon_pair_nodup Gg).
+        * rewrite !v_edges_length in L2; lia.
+        * intros e Hin. destruct (edge_loop_elim He Hin) as (e' & Hin' & E).
+          exists e'; split; [exact Hin'|]. rewrite edge_eqb_shallow in E.
+          apply edge_pair_test_canon; congruence.
+  Qed.
+
+  Lemma canon_edges_perm g h :
+    snd (canon g) = snd (canon h) ->
+    Permutation (map canon_edge (gsrc g)) (map canon_edge (gsrc h)).
+  Proof.
+    unfold canon; simpl; intros E.
+    rewrite (isort_perm cedge_leb (map canon_edge (gsrc g))), E. symmetry; apply isort_perm.
+  Qed.
+
+  Lemma tests_of_corr g h :
+    v_node_names g = v_node_names h -> length (gsrc g) = length (gsrc h) ->
+    (forall e, In e (gsrc g) -> exists e', In e' (gsrc h) /\ canon_pair e = canon_pair e') ->
+    (forall e, In e (gsrc h) -> exists e', In e' (gsrc g) /\ canon_pair e = canon_pair e') ->
+    tests g h.
+  Proof.
+    intros En Le C1 C2; unfold tests; repeat split.
+    - unfold v_nodes; rewrite !map_length.
+      apply (f_equal (@length _)) in En; unfold v_node_names in En; rewrite !map_length in En; exact En.
+    - rewrite !v_edges_length; exact Le.
+    - rewrite En; apply name_set_eqb_refl.
+    - apply upair_set_eqb_spec; split; intros p Hp; apply in_map_iff in Hp;
+        destruct Hp as (e & <- & He); apply v_edges_in in He.
+      + destruct (C1 e He) as (e' & He' & E). exists (edge_key e'); split.
+        * apply in_map, v_edges_in; exact He'.
+        * apply canon_pair_upair; exact E.
+      + destruct (C2 e He) as (e' & He' & E). exists (edge_key e'); split.
+        * apply in_map, v_edges_in; exact He'.
+        * apply canon_pair_upair; exact E.
+  Qed.
+
+  Lemma node_shallow_same_id k g h a b :
+    GOK k g -> GOK k h -> In a (gnodes g) -> In b (gnodes h) -> nid a = nid b ->
+    node_eqb k false a b = Ok true.
+  Proof.
+    intros Gg Gh Ha Hb E. apply node_eqb_key_true; [exact (GOK_tagged Gg Ha)|].
+    unfold node_fullkey, node_key; rewrite E. destruct k; [reflexivity|].
+    destruct (GOK_same_id_tags Gg Gh Ha Hb E eq_refl) as [-> ->]; reflexivity.
+  Qed.
+
+  Lemma graph_eq_canon_bwd k g h :
+    GOK k g -> GOK k h -> canon g = canon h -> graph_eqb k false g h = Ok true.
+  Proof.
+    intros Gg Gh E. pose proof (f_equal fst E) as En; pose proof (f_equal snd E) as Ee.
+    simpl in En. apply canon_edges_perm in Ee.
+    assert (C1 : forall e, In e (gsrc g) -> exists e', In e' (gsrc h) /\ canon_edge e = canon_edge e')
+      by (apply perm_map_in; exact Ee).
+    assert (C2 : forall e, In e (gsrc h) -> exists e', In e' (gsrc g) /\ canon_edge e = canon_edge e')
+      by (apply perm_map_in; symmetry; exact Ee).
+    apply graph_eqb_true_iff; split; [|split].
+    - apply tests_of_corr; [exact En| | |].
+      + apply Permutation_length in Ee; rewrite !map_length in Ee; exact Ee.
+      + intros e He; destruct (C1 e He) as (e' & He' & X); exists e'; split; [exact He'|].
+        exact (f_equal fst X).
+      + intros e He; destruct (C2 e He) as (e' & He' & X); exists e'; split; [exact He'|].
+        exact (f_equal fst X).
+    - apply all_res_true; intros n Hn. apply nodes_sorted_in in Hn. unfold node_step.
+      assert (Hx : In (nid n) (node_ids h)).
+      { apply v_node_names_in; rewrite <- En; apply v_node_names_in, in_map; exact Hn. }
+      destruct (GOK_get_node Gh Hx) as (n' & -> & Hn' & En').
+      apply (node_shallow_same_id Gg Gh Hn Hn'); symmetry; exact En'.
+    - apply all_res_true; intros e He. apply v_edges_in in He. unfold edge_step.
+      destruct (C1 e He) as (e' & He' & X).
+      rewrite (@other_edge_found k h e e' Gh He' (canon_pair_eq_cases e e' (f_equal fst X))); cbn [bind].
+      rewrite edge_eqb_shallow; f_equal. apply edge_pair_test_canon; exact X.
+  Qed.
+
+  Theorem graph_eq_char_ok k g h :
+    GOK k g -> GOK k h -> (graph_eqb k false g h = Ok true <-> canon g = canon h).
+  Proof.
+    intros Gg Gh; split; [apply graph_eq_canon_fwd|apply graph_eq_canon_bwd]; assumption.
+  Qed.
+  (** ** Characterisation by the canonical form (deep) *)
+
+  Lemma edge_eqb_deep_true k g h e e' :
+    edge_eqb k true g h e e' = Ok true ->
+    edge_pair_test e e' = true /\ py_meta_eqb (emeta e) (emeta e') = true.
+  Proof.
+    unfold edge_eqb.
+    destruct (get_node g (esrc e)) as [s|]; [|discriminate].
+    destruct (get_node g (edst e)) as [d|]; [|discriminate].
+    destruct (get_node h (esrc e')) as [s'|]; [|discriminate].
+    destruct (get_node h (edst e')) as [d'|]; [|discriminate].
+    intros H. apply bind_ok in H; destruct H as (b1 & _ & H).
+    apply bind_ok in H; destruct H as (b2 & _ & H).
+    apply bind_ok in H; destruct H as (ok & _ & H).
+    destruct ok; cbn [negb] in H; [|discriminate].
+    destruct (py_meta_eqb (emeta e) (emeta e')); cbn [negb] in H; [|discriminate].
+    injection H as H; auto.
+  Qed.
+
+  Lemma deep_eq_canon_fwd k g h :
+    GOK k g -> GOK k h -> graph_eqb k true g h = Ok true -> canon_deep g = canon_deep h.
+  Proof.
+    intros Gg Gh H. apply graph_eqb_true_iff in H.
+    destruct H as ((L1 & L2 & Hs & Hu) & Hn & He). unfold canon_deep; f_equal.
+    - rewrite !canon_nodes_sorted. apply isort_cnode_perm.
+      + rewrite map_map; simpl. exact (ok_nodes Gg).
+      + apply perm_of_incl.
+        * apply (NoDup_map_inv (fun a : name * vtype * meta => fst (fst a))).
+          rewrite map_map; simpl. exact (ok_nodes Gg).
+        * rewrite !v_nodes_length in L1; lia.
+        * intros n Hin. destruct (node_loop_elim Hn Hin) as (n' & Hin' & _ & E).
+          exists n'; split; [exact Hin'|].
+          apply node_eqb_true_key in E. apply (f_equal fst) in E; simpl in E.
+          apply node_eqb_deep_canon, node_eqb_base_key; exact E.
+    - apply isort_dedge_perm.
+      + rewrite map_map; simpl. exact (GOK_canon_pair_nodup Gg).
+      + apply perm_of_incl.
+        * apply (NoDup_map_inv (fun a : ((name * name) * etype) * meta => fst (fst a))).
+          rewrite map_map; simpl. exact (GOK_canon_pair_nodup Gg).
+        * rewrite !v_edges_length in L2; lia.
+        * intros e Hin. destruct (edge_loop_elim He Hin) as (e' & Hin' & E).
+          exists e'; split; [exact Hin'|].
+          apply edge_eqb_deep_true in E; destruct E as [E1 E2]. unfold canon_dedge; f_equal.
+          -- apply edge_pair_test_canon; exact E1.
+          -- apply py_meta_eqb_eq; exact E2.
+  Qed.
+
+  Lemma cross_node_deep k g h x a b :
+    GOK k g -> GOK k h -> map canon_node (nodes_sorted g) = map canon_node (nodes_sorted h) ->
+    get_node g x = Some a -> get_node h x = Some b -> node_eqb k true a b = Ok true.
+  Proof.
+    intros Gg Gh E Fa Fb. apply find_node_some in Fa, Fb. destruct Fa as [Ha Ea], Fb as [Hb Eb].
+    assert (Hc : In (canon_node a) (map canon_node (nodes_sorted h))).
+    { rewrite <- E; apply in_map, nodes_sorted_in; exact Ha. }
+    apply in_map_iff in Hc; destruct Hc as (b' & Ec & Hb'). apply nodes_sorted_in in Hb'.
+    assert (Eid : nid b' = nid a) by exact (f_equal (fun c : name * vtype * meta => fst (fst c)) Ec).
+    assert (Ebb : b' = b).
+    { pose proof (GOK_get_node_of Gh Hb') as F1. pose proof (GOK_get_node_of Gh Hb) as F2.
+      rewrite Eid, Ea, <- Eb in F1. congruence. }
+    subst b'. apply node_eqb_key_true; [exact (GOK_tagged Gg Ha)|].
+    unfold node_fullkey; f_equal.
+    - apply node_eqb_base_key, node_eqb_deep_canon; symmetry; exact Ec.
+    - destruct k; [reflexivity|].
+      destruct (GOK_same_id_tags Gg Gh Ha Hb (eq_sym Eid) eq_refl) as [-> ->]; reflexivity.
+  Qed.
+
+  Lemma edge_eqb_deep_intro k g h e e' :
+    GOK k g -> GOK k h ->
+    (forall x a b, get_node g x = Some a -> get_node h x = Some b -> node_eqb k true a b = Ok true) ->
+    In e (gsrc g) -> In e' (gsrc h) -> canon_dedge e = canon_dedge e' ->
+    edge_eqb k true g h e e' = Ok true.
+  Proof.
+    intros Gg Gh Hx He He' Ec.
+    assert (Ece : canon_edge e = canon_edge e') by exact (f_equal fst Ec).
+    assert (Em : py_meta_eqb (emeta e) (emeta e') = true)
+      by (apply py_meta_eqb_eq; exact (f_equal snd Ec)).
+    assert (Et : ety e = ety e') by exact (f_equal snd Ece).
+    pose proof (proj2 (edge_pair_test_canon e e') Ece) as Ep.
+    assert (Hcase : edge_key e' = edge_key e
+                    \/ (edge_key e' = (edst e, esrc e) /\ esrc e <> edst e)).
+    { destruct (canon_pair_eq_cases e e' (f_equal fst Ece)) as [K|K]; [left; exact K|].
+      destruct (name_eq_dec (esrc e) (edst e)) as [E|Hn]; [left|right; auto].
+      rewrite K; unfold edge_key; rewrite E; reflexivity. }
+    unfold edge_eqb.
+    destruct (ok_ends Gg He) as [Hs Hd]. destruct (ok_ends Gh He') as [Hs' Hd'].
+    destruct (GOK_get_node Gg Hs) as (s & Fs & Is & Es).
+    destruct (GOK_get_node Gg Hd) as (d & Fd & Id & Ed).
+    destruct (GOK_get_node Gh Hs') as (s' & Fs' & Is' & Es').
+    destruct (GOK_get_node Gh Hd') as (d' & Fd' & Id' & Ed').
+    rewrite Fs, Fd, Fs', Fd'.
+    destruct Hcase as [K|[K Hne]].
+    - assert (K1 : esrc e' = esrc e) by (unfold edge_key in K; congruence).
+      assert (K2 : edst e' = edst e) by (unfold edge_key in K; congruence).
+      rewrite K1 in Fs'; rewrite K2 in Fd'.
+      rewrite (Hx _ _ _ Fs Fs'), (Hx _ _ _ Fd Fd'). cbn [bind negb].
+      destruct (in_dont_care (ety e) && etype_eqb (ety e) (ety e')); cbn [bind negb orb];
+        rewrite Em, Ep; reflexivity.
+    - assert (K1 : esrc e' = edst e) by (unfold edge_key in K; congruence).
+      assert (K2 : edst e' = esrc e) by (unfold edge_key in K; congruence).
+      assert (N1 : node_eqb k true s s' = Ok false) by (apply node_eqb_diff_id; congruence).
+      assert (N2 : node_eqb k true d d' = Ok false) by (apply node_eqb_diff_id; congruence).
+      rewrite K1 in Fs'; rewrite K2 in Fd'.
+      rewrite N1, N2, (Hx _ _ _ Fs Fd'), (Hx _ _ _ Fd Fs').
+      assert (Dc : in_dont_care (ety e) = true).
+      { destruct (in_dont_care (ety e)) eqn:Dc; [reflexivity|]. exfalso; apply Hne.
+        pose proof (f_equal fst Ece) as P; unfold canon_edge, canon_pair in P; simpl in P.
+        rewrite <- Et, Dc in P; simpl in P.
+        assert (P' : edge_key e = edge_key e') by exact P.
+        rewrite K in P'; unfold edge_key in P'; congruence. }
+      rewrite Dc, <- Et, eq_etype_eqb_refl. cbn [bind negb andb]. rewrite Em, Ep; reflexivity.
+  Qed.
+
+  Lemma deep_eq_canon_bwd k g h :
+    GOK k g -> GOK k h -> canon_deep g = canon_deep h -> graph_eqb k true g h = Ok true.
+  Proof.
+    intros Gg Gh E. pose proof (f_equal fst E) as En; pose proof (f_equal snd E) as Ee.
+    simpl in En, Ee.
+    assert (Pe : Permutation (map canon_dedge (gsrc g)) (map canon_dedge (gsrc h))).
+    { rewrite (isort_perm dedge_leb (map canon_dedge (gsrc g))), Ee. symmetry; apply isort_perm. }
+    assert (C1 : forall e, In e (gsrc g) -> exists e', In e' (gsrc h) /\ canon_dedge e = canon_dedge e')
+      by (apply perm_map_in; exact Pe).
+    assert (C2 : forall e, In e (gsrc h) -> exists e', In e' (gsrc g) /\ canon_dedge e = canon_dedge e')
+      by (apply perm_map_in; symmetry; exact Pe).
+    assert (Enames : v_node_names g = v_node_names h).
+    { unfold v_node_names.
+      assert (M : forall l, map nid l = map (fun c : name * vtype * meta => fst (fst c)) (map canon_node l))
+        by (intros l; rewrite map_map; reflexivity).
+      rewrite !M, En; reflexivity. }
+    apply graph_eqb_true_iff; split; [|split].
+    - apply tests_of_corr; [exact Enames| | |].
+      + apply Permutation_length in Pe; rewrite !map_length in Pe; exact Pe.
+      + intros e He; destruct (C1 e He) as (e' & He' & X); exists e'; split; [exact He'|].
+        exact (f_equal (fun c : ((name * name) * etype) * meta => fst (fst c)) X).
+      + intros e He; destruct (C2 e He) as (e' & He' & X); exists e'; split; [exact He'|].
+        exact (f_equal (fun c : ((name * name) * etype) * meta => fst (fst c)) X).
+    - apply all_res_true; intros n Hn. apply nodes_sorted_in in Hn. unfold node_step.
+      assert (Hin : In (nid n) (node_ids h)).
+      { apply v_node_names_in; rewrite <- Enames; apply v_node_names_in, in_map; exact Hn. }
+      destruct (GOK_get_node Gh Hin) as (n' & Fn' & Hn' & En').
+      rewrite Fn'. apply (cross_node_deep Gg Gh En (GOK_get_node_of Gg Hn) Fn').
+    - apply all_res_true; intros e He. apply v_edges_in in He. unfold edge_step.
+      destruct (C1 e He) as (e' & He' & X).
+      rewrite (@other_edge_found k h e e' Gh He'
+                 (canon_pair_eq_cases e e'
+                    (f_equal (fun c : ((name * name) * etype) * meta => fst (fst c)) X))); cbn [bind].
+      apply edge_eqb_deep_intro; try assumption.
+      intros x a b; apply (cross_node_deep Gg Gh En).
+  Qed.
+
+  Theorem deep_eq_char_ok k g h :
+    GOK k g -> GOK k h -> (graph_eqb k true g h = Ok true <-> canon_deep g = canon_deep h).
+  Proof.
+    intros Gg Gh; split; [apply deep_eq_canon_fwd|apply deep_eq_canon_bwd]; assumption.
+  Qed.
+
+  Lemma canon_deep_shallow g h : canon_deep g = canon_deep h -> canon g = canon h.
+  Proof.
+    intros E. pose proof (f_equal fst E) as En; pose proof (f_equal snd E) as Ee.
+    simpl in En, Ee. unfold canon; f_equal.
+    - unfold v_node_names.
+      assert (M : forall l, map nid l = map (fun c : name * vtype * meta => fst (fst c)) (map canon_node l))
+        by (intros l; rewrite map_map; reflexivity).
+      rewrite !M, En; reflexivity.
+    - assert (M : forall l, isort cedge_leb (map canon_edge l)
+                            = map fst (isort dedge_leb (map canon_dedge l))).
+      { intros l. rewrite (isort_map (@fst _ _) dedge_leb cedge_leb) by reflexivity.
+        rewrite map_map; reflexivity. }
+      rewrite !M, Ee; reflexivity.
+  Qed.
+  (** ** Construction-order independence of the canonical forms *)
+
+  Lemma canon_perm g g' :
+    Permutation (node_ids g) (node_ids g') -> Permutation (gsrc g) (gsrc g') ->
+    NoDup (map canon_pair (gsrc g)) -> canon g = canon g'.
+  Proof.
+    intros Pn Pe ND; unfold canon; f_equal.
+    - rewrite !v_node_names_sort; apply sort_names_perm_eq; exact Pn.
+    - apply isort_cedge_perm; [rewrite map_map; exact ND|apply Permutation_map; exact Pe].
+  Qed.
+
+  Lemma canon_deep_perm g g' :
+    Permutation (map canon_node (gnodes g)) (map canon_node (gnodes g')) -> NoDup (node_ids g) ->
+    Permutation (gsrc g) (gsrc g') -> NoDup (map canon_pair (gsrc g)) ->
+    canon_deep g = canon_deep g'.
+  Proof.
+    intros Pn NDn Pe ND; unfold canon_deep; f_equal.
+    - rewrite !canon_nodes_sorted. apply isort_cnode_perm; [rewrite map_map; exact NDn|exact Pn].
+    - apply isort_dedge_perm; [rewrite map_map; exact ND|apply Permutation_map; exact Pe].
+  Qed.
+
+  Lemma equiv_canon_nodes g g' :
+    Forall2 node_equiv (gnodes g) (gnodes g') ->
+    map canon_node (gnodes g) = map canon_node (gnodes g').
+  Proof.
+    induction 1 as [|a b l l' (E1 & E2 & E3 & _) _ IH]; simpl; [reflexivity|].
+    rewrite IH; unfold canon_node; rewrite E1, E2, E3; reflexivity.
+  Qed.
+
+  Lemma equiv_canon k g g' :
+    GOK k g -> equiv g g' -> canon g = canon g' /\ canon_deep g = canon_deep g'.
+  Proof.
+    intros G (Hn & Pe & _). pose proof (equiv_canon_nodes Hn) as En. split.
+    - apply canon_perm; [|exact Pe|exact (GOK_canon_pair_nodup G)].
+      unfold node_ids.
+      assert (M : forall l, map nid l = map (fun c : name * vtype * meta => fst (fst c)) (map canon_node l))
+        by (intros l; rewrite map_map; reflexivity).
+      rewrite !M, En; reflexivity.
+    - apply canon_deep_perm; [rewrite En; reflexivity|exact (ok_nodes G)|exact Pe|
+                              exact (GOK_canon_pair_nodup G)].
+  Qed.
+
+  (** ** The theorems of C07 for graphs, stated on the invariant *)
+
+  Lemma res_bool_eq (r r' : res bool) :
+    (exists b, r = Ok b) -> (exists b, r' = Ok b) -> (r = Ok true <-> r' = Ok true) -> r = r'.
+  Proof.
+    intros ([|] & ->) ([|] & ->) H; try reflexivity.
+    - pose proof (proj1 H eq_refl) as X; discriminate X.
+    - pose proof (proj2 H eq_refl) as X; discriminate X.
+  Qed.
+
+  (** 1. never raises *)
+  Theorem graph_eq_never_raises k g h :
+    Inv parse k g -> Inv parse k h -> exists b, graph_eqb k false g h = Ok b.
+  Proof. intros Ig Ih; apply graph_eqb_total; apply Inv_GOK; assumption. Qed.
+
+  Theorem deep_eq_never_raises k g h :
+    Inv parse k g -> Inv parse k h -> exists b, graph_eqb k true g h = Ok b.
+  Proof. intros Ig Ih; apply graph_eqb_total; apply Inv_GOK; assumption. Qed.
+
+  (** 2. characterisation *)
+  Theorem graph_eq_char k g h :
+    Inv parse k g -> Inv parse k h -> (graph_eqb k false g h = Ok true <-> canon g = canon h).
+  Proof. intros Ig Ih; apply graph_eq_char_ok; apply Inv_GOK; assumption. Qed.
+
+  Theorem deep_eq_char k g h :
+    Inv parse k g -> Inv parse k h -> (graph_eqb k true g h = Ok true <-> canon_deep g = canon_deep h).
+  Proof. intros Ig Ih; apply deep_eq_char_ok; apply Inv_GOK; assumption. Qed.
+
+  (** 3. equivalence relation, [!=], deep => shallow, order independence *)
+  Theorem graph_eq_refl k d g : Inv parse k g -> graph_eqb k d g g = Ok true.
+  Proof.
+    intros I; destruct d; [apply deep_eq_char|apply graph_eq_char]; auto.
+  Qed.
+
+  Theorem graph_eq_sym k d g h :
+    Inv parse k g -> Inv parse k h -> graph_eqb k d g h = graph_eqb k d h g.
+  Proof.
+    intros Ig Ih. pose proof (Inv_GOK Ig) as Gg; pose proof (Inv_GOK Ih) as Gh.
+    apply res_bool_eq; try (apply graph_eqb_total; assumption).
+    destruct d.
+    - rewrite (deep_eq_char Ig Ih), (deep_eq_char Ih Ig); split; congruence.
+    - rewrite (graph_eq_char Ig Ih), (graph_eq_char Ih Ig); split; congruence.
+  Qed.
+
+  Theorem graph_eq_trans k d g h i :
+    Inv parse k g -> Inv parse k h -> Inv parse k i ->
+    graph_eqb k d g h = Ok true -> graph_eqb k d h i = Ok true -> graph_eqb k d g i = Ok true.
+  Proof.
+    intros Ig Ih Ii; destruct d.
+    - rewrite (deep_eq_char Ig Ih), (deep_eq_char Ih Ii), (deep_eq_char Ig Ii); congruence.
+    - rewrite (graph_eq_char Ig Ih), (graph_eq_char Ih Ii), (graph_eq_char Ig Ii); congruence.
+  Qed.
+
+  Theorem graph_ne_negb k g h :
+    Inv parse k g -> Inv parse k h ->
+    exists b, graph_eqb k false g h = Ok b /\ graph_neb k g h = Ok (negb b).
+  Proof.
+    intros Ig Ih; destruct (graph_eq_never_raises Ig Ih) as (b & E); exists b; split; [exact E|].
+    unfold graph_neb; rewrite E; reflexivity.
+  Qed.
+
+  Theorem deep_implies_shallow k g h :
+    Inv parse k g -> Inv parse k h ->
+    graph_eqb k true g h = Ok true -> graph_eqb k false g h = Ok true.
+  Proof.
+    intros Ig Ih; rewrite (deep_eq_char Ig Ih), (graph_eq_char Ig Ih); apply canon_deep_shallow.
+  Qed.
+
+  (** the answer does not depend on the insertion order of nodes and edges *)
+  Theorem canon_order_independent k g g' :
+    Inv parse k g ->
+    Permutation (map canon_node (gnodes g)) (map canon_node (gnodes g')) ->
+    Permutation (gsrc g) (gsrc g') ->
+    canon g = canon g' /\ canon_deep g = canon_deep g'.
+  Proof.
+    intros I Pn Pe. pose proof (Inv_GOK I) as G.
+    assert (D : canon_deep g = canon_deep g').
+    { apply canon_deep_perm; [exact Pn|exact (ok_nodes G)|exact Pe|exact (GOK_canon_pair_nodup G)]. }
+    split; [apply canon_deep_shallow; exact D|exact D].
+  Qed.
+
+  Theorem graph_eq_order_independent k d g g' h :
+    Inv parse k g -> Inv parse k g' -> Inv parse k h -> equiv g g' ->
+    graph_eqb k d g h = graph_eqb k d g' h /\ graph_eqb k d h g = graph_eqb k d h g'.
+  Proof.
+    intros Ig Ig' Ih Q. pose proof (Inv_GOK Ig) as Gg; pose proof (Inv_GOK Ig') as Gg'.
+    pose proof (Inv_GOK Ih) as Gh. destruct (equiv_canon Gg Q) as [C D].
+    split; apply res_bool_eq; try (apply graph_eqb_total; assumption); destruct d.
+    - rewrite (deep_eq_char Ig Ih), (deep_eq_char Ig' Ih), D; tauto.
+    - rewrite (graph_eq_char Ig Ih), (graph_eq_char Ig' Ih), C; tauto.
+    - rewrite (deep_eq_char Ih Ig), (deep_eq_char Ih Ig'), D; tauto.
+    - rewrite (graph_eq_char Ih Ig), (graph_eq_char Ih Ig'), C; tauto.
+  Qed.
+  (** * Skeleton comparison: reduction to graph comparison of the undirected copies *)
+
+  Definition skel (g : graph) : graph :=
+    {| gnodes := gnodes g; gsrc := map und (gsrc g); gdst := map und (gdst g);
+       gmeta := gmeta g; glag := glag g; gvar := gvar g |}.
+
+  Lemma skel_keys g : edge_keys (skel g) = edge_keys g.
+  Proof. unfold edge_keys, skel; simpl. rewrite map_map; reflexivity. Qed.
+
+  Lemma GOK_skel k g : GOK k g -> GOK k (skel g).
+  Proof.
+    intros G; constructor.
+    - exact (ok_nodes G).
+    - rewrite skel_keys; exact (ok_keys G).
+    - intros e He; simpl in He; apply in_map_iff in He; destruct He as (e0 & <- & He0).
+      exact (ok_ends G He0).
+    - intros e He; simpl in He; apply in_map_iff in He; destruct He as (e0 & <- & He0).
+      rewrite skel_keys; exact (ok_norev G He0).
+    - exact (ok_tags G).
+  Qed.
+
+  Lemma sk_edges_skel g : sk_edges g = v_edges (skel g).
+  Proof.
+    unfold sk_edges, v_edges, sorted_edges, skel; simpl.
+    apply isort_map; intros x y; reflexivity.
+  Qed.
+
+  Lemma filter_none A (p : A -> bool) l : (forall y, In y l -> p y = false) -> filter p l = [].
+  Proof.
+    induction l as [|a l IH]; simpl; intros H; [reflexivity|].
+    rewrite (H a (or_introl eq_refl)); apply IH; intros y Hy; apply H; right; exact Hy.
+  Qed.
+
+  Lemma filter_unique A (p : A -> bool) l x :
+    NoDup l -> In x l -> p x = true -> (forall y, In y l -> p y = true -> y = x) ->
+    filter p l = [x].
+  Proof.
+    induction l as [|a l IH]; simpl; intros ND Hx Px U; [contradiction|].
+    inversion ND as [|? ? Hnin ND']; subst.
+    destruct (p a) eqn:Pa.
+    - assert (a = x) by (apply U; auto). subst a. f_equal.
+      apply filter_none; intros y Hy. destruct (p y) eqn:Py; [|reflexivity].
+      exfalso; apply Hnin. rewrite <- (U y (or_intror Hy) Py); exact Hy.
+    - destruct Hx as [->|Hx]; [congruence|].
+      apply IH; auto.
+  Qed.
+
+  Lemma nodup_map_inj A B (f : A -> B) l x y :
+    NoDup (map f l) -> In x l -> In y l -> f x = f y -> x = y.
+  Proof.
+    induction l as [|a l IH]; simpl; intros ND Hx Hy E; [contradiction|].
+    inversion ND as [|? ? Hnin ND']; subst.
+    destruct Hx as [->|Hx], Hy as [->|Hy]; auto.
+    - exfalso; apply Hnin; rewrite E; apply in_map; exact Hy.
+    - exfalso; apply Hnin; rewrite <- E; apply in_map; exact Hx.
+  Qed.
+
+  Lemma sk_get_node_spec k h id :
+    GOK k h ->
+    sk_get_node h id = match get_node h id with Some n => Ok n | None => Err EAssert end.
+  Proof.
+    intros G; unfold sk_get_node.
+    assert (NDs : NoDup (map nid (nodes_sorted h))).
+    { eapply Permutation_NoDup; [|exact (ok_nodes G)]. apply Permutation_map, isort_perm. }
+    destruct (get_node h id) as [n|] eqn:F.
+    - apply find_node_some in F; destruct F as [Hin E].
+      rewrite (@filter_unique _ (fun n0 => name_eqb (nid n0) id) (nodes_sorted h) n); auto.
+      + exact (NoDup_map_inv _ _ NDs).
+      + apply nodes_sorted_in; exact Hin.
+      + apply name_eqb_eq; exact E.
+      + intros y Hy Py; apply name_eqb_eq in Py.
+        apply (nodup_map_inj NDs Hy); [apply nodes_sorted_in; exact Hin|congruence].
+    - apply find_node_none in F. rewrite filter_none; [reflexivity|].
+      intros y Hy. apply name_eqb_neq; intros E; apply F. rewrite <- E.
+      apply in_map, nodes_sorted_in; exact Hy.
+  Qed.
+
+  Definition sk_match (s d : name) (e : edge) : bool :=
+    pair_eqb (edge_key e) (s, d) || pair_eqb (edge_key e) (d, s).
+
+  Lemma sk_get_edge_found k h s d e' :
+    GOK k h -> In e' (gsrc h) -> (edge_key e' = (s, d) \/ edge_key e' = (d, s)) ->
+    sk_get_edge h s d = Ok (und e').
+  Proof.
+    intros G Hin K; unfold sk_get_edge. fold (sk_match s d).
+    pose proof (GOK_skel G) as Gs.
+    assert (NDk : NoDup (map edge_key (sk_edges h))).
+    { rewrite sk_edges_skel. eapply Permutation_NoDup; [|exact (ok_keys Gs)].
+      apply Permutation_map, isort_perm. }
+    assert (Hin' : In (und e') (sk_edges h)).
+    { rewrite sk_edges_skel; apply v_edges_in; simpl; apply in_map; exact Hin. }
+    rewrite (@filter_unique _ (sk_match s d) (sk_edges h) (und e')); auto.
+    - exact (NoDup_map_inv _ _ NDk).
+    - unfold sk_match. change (edge_key (und e')) with (edge_key e').
+      destruct K as [-> | ->]; rewrite pair_eqb_refl; [reflexivity|apply orb_true_r].
+    - intros y Hy Py. apply (nodup_map_inj NDk Hy Hin').
+      change (edge_key (und e')) with (edge_key e').
+      unfold sk_match in Py; apply orb_true_iff in Py; rewrite !pair_eqb_eq in Py.
+      rewrite sk_edges_skel in Hy; apply v_edges_in in Hy.
+      destruct Py as [Py|Py], K as [K|K]; try congruence; exfalso.
+      + apply (ok_norev Gs Hy). rewrite skel_keys.
+        assert (E1 : esrc y = s) by (unfold edge_key in Py; congruence).
+        assert (E2 : edst y = d) by (unfold edge_key in Py; congruence).
+        rewrite E1, E2, <- K. apply in_map; exact Hin.
+      + apply (ok_norev Gs Hy). rewrite skel_keys.
+        assert (E1 : esrc y = d) by (unfold edge_key in Py; congruence).
+        assert (E2 : edst y = s) by (unfold edge_key in Py; congruence).
+        rewrite E1, E2, <- K. apply in_map; exact Hin.
+  Qed.
+
+  Lemma sk_get_edge_none h s d :
+    ~ In (s, d) (edge_keys h) -> ~ In (d, s) (edge_keys h) -> sk_get_edge h s d = Err EAssert.
+  Proof.
+    intros N1 N2; unfold sk_get_edge. rewrite filter_none; [reflexivity|].
+    intros y Hy. rewrite sk_edges_skel in Hy; apply v_edges_in in Hy; simpl in Hy.
+    apply in_map_iff in Hy; destruct Hy as (e0 & <- & He0).
+    change (edge_key (und e0)) with (edge_key e0).
+    apply orb_false_iff; split; apply not_true_is_false; rewrite pair_eqb_eq; intros E.
+    - apply N1; rewrite <- E; apply in_map; exact He0.
+    - apply N2; rewrite <- E; apply in_map; exact He0.
+  Qed.
+
+  (** the two error classes differ (AssertionError vs KeyError / EdgeDoesNotExistError), the
+      boolean answers do not *)
+  Definition res_sim (r r' : res bool) : Prop :=
+    match r, r' with Ok b, Ok b' => b = b' | Err _, Err _ => True | _, _ => False end.
+
+  Lemma res_sim_refl r : res_sim r r.
+  Proof. destruct r; simpl; auto. Qed.
+
+  Lemma all_res_sim A (f f' : A -> res bool) l :
+    (forall x, In x l -> res_sim (f x) (f' x)) -> res_sim (all_res f l) (all_res f' l).
+  Proof.
+    induction l as [|a l IH]; simpl; intros H; [reflexivity|].
+    pose proof (H a (or_introl eq_refl)) as Ha.
+    destruct (f a) as [[|]|x], (f' a) as [[|]|x']; simpl in Ha; try discriminate; try contradiction;
+      simpl; auto.
+  Qed.
+
+  Lemma sk_edge_lookup_sim k h e :
+    GOK k h ->
+    match other_edge (skel h) e with
+    | Ok x => sk_get_edge h (esrc e) (edst e) = Ok x
+    | Err _ => sk_get_edge h (esrc e) (edst e) = Err EAssert
+               /\ sk_get_edge h (edst e) (esrc e) = Err EAssert
+    end.
+  Proof.
+    intros G. destruct (other_edge (skel h) e) as [x|err] eqn:O.
+    - apply other_edge_ok in O; destruct O as [Hin K]. simpl in Hin.
+      apply in_map_iff in Hin; destruct Hin as (e0 & <- & He0).
+      change (edge_key (und e0)) with (edge_key e0) in K.
+      apply (sk_get_edge_found G He0). exact K.
+    - unfold other_edge, edge_at in O.
+      destruct (find_edge (esrc e) (edst e) (gsrc (skel h))) eqn:F1; [discriminate|].
+      destruct (find_edge (edst e) (esrc e) (gsrc (skel h))) eqn:F2; [discriminate|].
+      apply find_edge_none in F1, F2. fold (edge_keys (skel h)) in F1, F2.
+      rewrite skel_keys in F1, F2. split; apply sk_get_edge_none; assumption.
+  Qed.
+
+  Lemma skeleton_graph_sim k deep g h :
+    GOK k g -> GOK k h ->
+    res_sim (skeleton_eqb k deep g h) (graph_eqb k deep (skel g) (skel h)).
+  Proof.
+    intros Gg Gh. unfold skeleton_eqb, graph_eqb.
+    rewrite !sk_edges_skel. unfold v_nodes; rewrite !map_length.
+    change (nodes_sorted (skel g)) with (nodes_sorted g).
+    change (nodes_sorted (skel h)) with (nodes_sorted h).
+    change (v_node_names (skel g)) with (v_node_names g).
+    change (v_node_names (skel h)) with (v_node_names h).
+    destruct (_ || _); [reflexivity|].
+    destruct (negb (name_set_eqb _ _)); [reflexivity|].
+    destruct (negb (upair_set_eqb _ _)); [reflexivity|].
+    assert (S1 : res_sim
+                   (all_res (fun n => bind (sk_get_node h (nid n)) (fun n' => node_eqb k deep n n'))
+                      (nodes_sorted g))
+                   (all_res (fun n => match get_node (skel h) (nid n) with
+                                      | None => Err EKey
+                                      | Some n' => node_eqb k deep n n'
+                                      end) (nodes_sorted g))).
+    { apply all_res_sim; intros n _. rewrite (sk_get_node_spec (nid n) Gh).
+      change (get_node (skel h) (nid n)) with (get_node h (nid n)).
+      destruct (get_node h (nid n)); simpl; [apply res_sim_refl|exact I]. }
+    match type of S1 with res_sim ?a ?b => destruct a as [[|]|x], b as [[|]|x'] end;
+      simpl in S1; try discriminate; try contradiction; try reflexivity; try exact I.
+    apply all_res_sim; intros e _.
+    pose proof (sk_edge_lookup_sim e Gh) as L.
+    destruct (other_edge (skel h) e) as [x|err].
+    - rewrite L; cbn [bind]. apply res_sim_refl.
+    - destruct L as [-> ->]; simpl; exact I.
+  Qed.
+
+  (** canonical forms of the undirected copy *)
+  Lemma canon_edge_und e : canon_edge (und e) = (sk_pair e, Und).
+  Proof.
+    unfold canon_edge, canon_pair, sk_pair; simpl.
+    destruct (name_leb (esrc e) (edst e)); reflexivity.
+  Qed.
+
+  Lemma canon_skel_iff g h : canon (skel g) = canon (skel h) <-> canon_skel g = canon_skel h.
+  Proof.
+    assert (M : forall g0, canon (skel g0)
+                = (fst (canon_skel g0), map (fun p : name * name => (p, Und)) (snd (canon_skel g0)))).
+    { intros g0; unfold canon, canon_skel; simpl. f_equal.
+      rewrite (isort_map (fun p : name * name => (p, Und)) pair_leb cedge_leb) by reflexivity.
+      rewrite !map_map. f_equal. apply map_ext; intros e; apply canon_edge_und. }
+    rewrite !M; split; intros E.
+    - pose proof (f_equal fst E) as E1; pose proof (f_equal snd E) as E2; simpl in E1, E2.
+      apply map_inj_eq in E2; [|intros x y X; inversion X; reflexivity].
+      unfold canon_skel; f_equal; assumption.
+    - rewrite E; reflexivity.
+  Qed.
+
+  Lemma canon_skel_deep_iff g h :
+    canon_deep (skel g) = canon_deep (skel h) <-> canon_skel_deep g = canon_skel_deep h.
+  Proof.
+    pose (F := fun c : (name * name) * meta => ((fst c, Und), snd c)).
+    assert (M : forall g0, canon_deep (skel g0)
+                = (fst (canon_skel_deep g0), map F (snd (canon_skel_deep g0)))).
+    { intros g0; unfold canon_deep, canon_skel_deep; simpl. f_equal.
+      rewrite (isort_map F (fun a b : (name * name) * meta => pair_leb (fst a) (fst b)) dedge_leb)
+        by reflexivity.
+      rewrite !map_map. f_equal. apply map_ext; intros e.
+      unfold canon_dedge, F, sk_dedge; simpl. rewrite canon_edge_und; reflexivity. }
+    rewrite !M; split; intros E.
+    - pose proof (f_equal fst E) as E1; pose proof (f_equal snd E) as E2; simpl in E1, E2.
+      apply map_inj_eq in E2.
+      + unfold canon_skel_deep; f_equal; assumption.
+      + intros [x1 x2] [y1 y2] X; unfold F in X; simpl in X; inversion X; reflexivity.
+    - rewrite E; reflexivity.
+  Qed.
+
+  Lemma sim_ok_true r r' : res_sim r r' -> (r = Ok true <-> r' = Ok true).
+  Proof.
+    destruct r as [[|]|x], r' as [[|]|x']; simpl; intros H; try discriminate; try contradiction;
+      split; congruence.
+  Qed.
+
+  Lemma sim_total r r' : res_sim r r' -> (exists b, r' = Ok b) -> exists b, r = Ok b.
+  Proof.
+    destruct r as [b|x], r' as [b'|x']; simpl; intros H (c & E); try discriminate; try contradiction.
+    exists b; reflexivity.
+  Qed.
+
+  (** 4. the skeleton theorems *)
+  Theorem skeleton_eq_never_raises k d g h :
+    Inv parse k g -> Inv parse k h -> exists b, skeleton_eqb k d g h = Ok b.
+  Proof.
+    intros Ig Ih. pose proof (Inv_GOK Ig) as Gg; pose proof (Inv_GOK Ih) as Gh.
+    apply (sim_total (skeleton_graph_sim d Gg Gh)).
+    apply graph_eqb_total; apply GOK_skel; assumption.
+  Qed.
+
+  Theorem skeleton_eq_char k g h :
+    Inv parse k g -> Inv parse k h ->
+    (skeleton_eqb k false g h = Ok true <-> canon_skel g = canon_skel h).
+  Proof.
+    intros Ig Ih. pose proof (Inv_GOK Ig) as Gg; pose proof (Inv_GOK Ih) as Gh.
+    rewrite (sim_ok_true (skeleton_graph_sim false Gg Gh)).
+    rewrite (graph_eq_char_ok (GOK_skel Gg) (GOK_skel Gh)). apply canon_skel_iff.
+  Qed.
+
+  Theorem skeleton_deep_eq_char k g h :
+    Inv parse k g -> Inv parse k h ->
+    (skeleton_eqb k true g h = Ok true <-> canon_skel_deep g = canon_skel_deep h).
+  Proof.
+    intros Ig Ih. pose proof (Inv_GOK Ig) as Gg; pose proof (Inv_GOK Ih) as Gh.
+    rewrite (sim_ok_true (skeleton_graph_sim true Gg Gh)).
+    rewrite (deep_eq_char_ok (GOK_skel Gg) (GOK_skel Gh)). apply canon_skel_deep_iff.
+  Qed.
+
+  Theorem skeleton_eq_refl k d g : Inv parse k g -> skeleton_eqb k d g g = Ok true.
+  Proof.
+    intros I; destruct d; [apply skeleton_deep_eq_char|apply skeleton_eq_char]; auto.
+  Qed.
+
+  Theorem skeleton_eq_sym k d g h :
+    Inv parse k g -> Inv parse k h -> skeleton_eqb k d g h = skeleton_eqb k d h g.
+  Proof.
+    intros Ig Ih. apply res_bool_eq; try (apply skeleton_eq_never_raises; assumption).
+    destruct d.
+    - rewrite (skeleton_deep_eq_char Ig Ih), (skeleton_deep_eq_char Ih Ig); split; congruence.
+    - rewrite (skeleton_eq_char Ig Ih), (skeleton_eq_char Ih Ig); split; congruence.
+  Qed.
+
+  Theorem skeleton_eq_trans k d g h i :
+    Inv parse k g -> Inv parse k h -> Inv parse k i ->
+    skeleton_eqb k d g h = Ok true -> skeleton_eqb k d h i = Ok true ->
+    skeleton_eqb k d g i = Ok true.
+  Proof.
+    intros Ig Ih Ii; destruct d.
+    - rewrite (skeleton_deep_eq_char Ig Ih), (skeleton_deep_eq_char Ih Ii),
+        (skeleton_deep_eq_char Ig Ii); congruence.
+    - rewrite (skeleton_eq_char Ig Ih), (skeleton_eq_char Ih Ii), (skeleton_eq_char Ig Ii); congruence.
+  Qed.
+
+  Theorem skeleton_ne_negb k g h :
+    Inv parse k g -> Inv parse k h ->
+    exists b, skeleton_eqb k false g h = Ok b /\ skeleton_neb k g h = Ok (negb b).
+  Proof.
+    intros Ig Ih; destruct (skeleton_eq_never_raises false Ig Ih) as (b & E); exists b; split;
+      [exact E|]. unfold skeleton_neb; rewrite E; reflexivity.
+  Qed.
+
+  Theorem skeleton_deep_implies_shallow k g h :
+    Inv parse k g -> Inv parse k h ->
+    skeleton_eqb k true g h = Ok true -> skeleton_eqb k false g h = Ok true.
+  Proof.
+    intros Ig Ih. pose proof (Inv_GOK Ig) as Gg; pose proof (Inv_GOK Ih) as Gh.
+    rewrite (sim_ok_true (skeleton_graph_sim true Gg Gh)),
+      (sim_ok_true (skeleton_graph_sim false Gg Gh)).
+    rewrite (deep_eq_char_ok (GOK_skel Gg) (GOK_skel Gh)),
+      (graph_eq_char_ok (GOK_skel Gg) (GOK_skel Gh)).
+    apply canon_deep_shallow.
+  Qed.
+
+  (** equal graphs have equal skeletons *)
+  Theorem graph_eq_implies_skeleton_eq k g h :
+    Inv parse k g -> Inv parse k h ->
+    graph_eqb k false g h = Ok true -> skeleton_eqb k false g h = Ok true.
+  Proof.
+    intros Ig Ih. rewrite (graph_eq_char Ig Ih), (skeleton_eq_char Ig Ih).
+    intros E. pose proof (f_equal fst E) as E1. pose proof (canon_edges_perm (f_equal snd E)) as P.
+    simpl in E1. unfold canon_skel; f_equal; [exact E1|].
+    assert (M : forall l, map sk_pair l
+                          = map (fun c : (name * name) * etype =>
+                                   if name_leb (fst (fst c)) (snd (fst c)) then fst c
+                                   else (snd (fst c), fst (fst c))) (map canon_edge l)).
+    { intros l; rewrite map_map; apply map_ext; intros e.
+      unfold sk_pair, canon_edge, canon_pair; simpl.
+      destruct (in_dont_care (ety e)); simpl; [|destruct (name_leb (esrc e) (edst e)); reflexivity].
+      destruct (name_leb (esrc e) (edst e)) eqn:L1; simpl; [rewrite L1; reflexivity|].
+      destruct (name_leb (edst e) (esrc e)) eqn:L2; [reflexivity|].
+      destruct (name_leb_total (esrc e) (edst e)); congruence. }
+    rewrite !M.
+    apply isort_perm_eq; [apply pair_leb_total|apply pair_leb_trans|apply pair_leb_antisym|].
+    apply Permutation_map; exact P.
+  Qed.
+End Eq.
+
+(** * Non-vacuity and pinned behaviour (every value below was observed on the implementation) *)
+From CG Require Names.
+
+Module EqualityExamples.
+  Local Open Scope N_scope.
+  Definition x : name := [120].
+  Definition y : name := [121].
+  Definition z : name := [122].
+  Definition ka : name := [97].
+  Definition kb : name := [98].
+  Definition x_lag1 : name := [120; 32; 108; 97; 103; 40; 110; 61; 49; 41].  (* "x lag(n=1)" *)
+  Definition mk (k : kind) (ops : list op) : graph :=
+    run Names.parse Names.fmt k ops (empty_graph []).
+  Definition ae (s d : name) (t : etype) (m : option meta) : op :=
+    OAddEdge (str_ep s) (str_ep d) t m true.
+
+  Ltac in_list H := simpl in H; repeat (destruct H as [H|H]; [subst|]); try contradiction.
+  Ltac prove_inv :=
+    constructor;
+    [ vm_compute; repeat constructor; simpl; intuition discriminate
+    | vm_compute; apply Permutation_refl
+    | vm_compute; repeat constructor; simpl; intuition discriminate
+    | let e := fresh "e" in let H := fresh "H" in
+      intros e H; vm_compute in H; in_list H; vm_compute; intuition congruence
+    | let e := fresh "e" in let H := fresh "H" in
+      intros e H; vm_compute in H; in_list H; vm_compute; discriminate
+    | let e := fresh "e" in let H := fresh "H" in
+      intros e H; vm_compute in H; in_list H; vm_compute; intuition discriminate
+    | let n := fresh "n" in let H := fresh "H" in
+      intros n H; vm_compute in H; in_list H; vm_compute; apply Permutation_refl
+    | let n := fresh "n" in let H := fresh "H" in
+      intros n H; vm_compute in H; in_list H; vm_compute; apply Permutation_refl
+    | try (intros _; split; reflexivity); try discriminate
+    | try discriminate ].
+
+  (** x -- y, y -> z   versus   y -> z, y -- x  (other insertion order, other orientation) *)
+  Definition g_und := mk Plain [ae x y Und None; ae y z Dir None].
+  Definition h_und := mk Plain [ae y z Dir None; ae y x Und None].
+  Example g_und_inv : Inv Names.parse Plain g_und. Proof. prove_inv. Qed.
+  Example h_und_inv : Inv Names.parse Plain h_und. Proof. prove_inv. Qed.
+  Example und_flip_equal :
+    graph_eqb Plain false g_und h_und = Ok true /\ graph_neb Plain g_und h_und = Ok false
+    /\ graph_eqb Plain true g_und h_und = Ok true /\ graph_eqb Plain false h_und g_und = Ok true
+    /\ skeleton_eqb Plain false g_und h_und = Ok true
+    /\ canon g_und = canon h_und /\ canon_deep g_und = canon_deep h_und.
+  Proof. vm_compute; repeat split; reflexivity. Qed.
+
+  (** x -> y  versus  y -> x *)
+  Definition g_dir := mk Plain [ae x y Dir None].
+  Definition h_dir := mk Plain [ae y x Dir None].
+  Example g_dir_inv : Inv Names.parse Plain g_dir. Proof. prove_inv. Qed.
+  Example h_dir_inv : Inv Names.parse Plain h_dir. Proof. prove_inv. Qed.
+  Example dir_flip_unequal :
+    graph_eqb Plain false g_dir h_dir = Ok false /\ graph_neb Plain g_dir h_dir = Ok true
+    /\ skeleton_eqb Plain false g_dir h_dir = Ok true /\ skeleton_eqb Plain true g_dir h_dir = Ok true
+    /\ canon g_dir <> canon h_dir /\ canon_skel g_dir = canon_skel h_dir.
+  Proof. vm_compute; repeat split; try reflexivity; discriminate. Qed.
+
+  (** x o> y  versus  y o> x: "o>" is not in the dont-care list *)
+  Definition g_ud := mk Plain [ae x y UnkDir None].
+  Definition h_ud := mk Plain [ae y x UnkDir None].
+  Example g_ud_inv : Inv Names.parse Plain g_ud. Proof. prove_inv. Qed.
+  Example h_ud_inv : Inv Names.parse Plain h_ud. Proof. prove_inv. Qed.
+  Example unkdir_flip_unequal :
+    graph_eqb Plain false g_ud h_ud = Ok false /\ graph_neb Plain g_ud h_ud = Ok true
+    /\ skeleton_eqb Plain false g_ud h_ud = Ok true /\ canon g_ud <> canon h_ud.
+  Proof. vm_compute; repeat split; try reflexivity; discriminate. Qed.
+
+  (** shallow-equal but deep-unequal: variable type of a node / metadata of an edge *)
+  Definition g_vt := mk Plain [OAddNode x VBin (Some [(ka, JInt 1)]); ae x y Dir None].
+  Definition h_vt := mk Plain [OAddNode x VCont (Some [(ka, JInt 1)]); ae x y Dir None].
+  Example g_vt_inv : Inv Names.parse Plain g_vt. Proof. prove_inv. Qed.
+  Example h_vt_inv : Inv Names.parse Plain h_vt. Proof. prove_inv. Qed.
+  Example deep_unequal_shallow_equal :
+    graph_eqb Plain false g_vt h_vt = Ok true /\ graph_eqb Plain true g_vt h_vt = Ok false
+    /\ skeleton_eqb Plain false g_vt h_vt = Ok true /\ skeleton_eqb Plain true g_vt h_vt = Ok false
+    /\ canon g_vt = canon h_vt /\ canon_deep g_vt <> canon_deep h_vt.
+  Proof. vm_compute; repeat split; try reflexivity; discriminate. Qed.
+
+  Definition g_em := mk Plain [ae x y Dir (Some [(ka, JInt 1)])].
+  Definition h_em := mk Plain [ae x y Dir (Some [(ka, JInt 2)])].
+  Example edge_meta_deep_unequal :
+    graph_eqb Plain false g_em h_em = Ok true /\ graph_eqb Plain true g_em h_em = Ok false
+    /\ skeleton_eqb Plain true g_em h_em = Ok false.
+  Proof. vm_compute; repeat split; reflexivity. Qed.
+
+  (** Python's [True == 1]: metadata {'b': True} and {'b': 1} are deep-equal *)
+  Definition g_b := mk Plain [OAddNode x VUnspec (Some [(kb, JBool true)])].
+  Definition h_b := mk Plain [OAddNode x VUnspec (Some [(kb, JInt 1)])].
+  Example bool_int_deep_equal :
+    graph_eqb Plain true g_b h_b = Ok true /\ graph_eqb Plain true h_b g_b = Ok true
+    /\ canon_deep g_b = canon_deep h_b.
+  Proof. vm_compute; repeat split; reflexivity. Qed.
+
+  (** time-series class *)
+  Definition g_ts := mk TS [ae x y Und None].
+  Definition h_ts := mk TS [ae y x Und None].
+  Example ts_und_flip_equal :
+    graph_eqb TS false g_ts h_ts = Ok true /\ graph_eqb TS true g_ts h_ts = Ok true
+    /\ skeleton_eqb TS false g_ts h_ts = Ok true /\ map edge_key (gsrc h_ts) = [(y, x)].
+  Proof. vm_compute; repeat split; reflexivity. Qed.
+  Definition g_ts2 := mk TS [ae x_lag1 x Dir None].
+  Definition h_ts2 := mk TS [ae x_lag1 x Bi None].
+  Example ts_type_unequal :
+    graph_eqb TS false g_ts2 h_ts2 = Ok false /\ skeleton_eqb TS false g_ts2 h_ts2 = Ok true.
+  Proof. vm_compute; repeat split; reflexivity. Qed.
+
+  Example g_ts_inv : Inv Names.parse TS g_ts.
+  Proof.
+    constructor.
+    - vm_compute; repeat constructor; simpl; intuition discriminate.
+    - vm_compute; apply Permutation_refl.
+    - vm_compute; repeat constructor; simpl; intuition discriminate.
+    - intros e H; vm_compute in H; in_list H; vm_compute; intuition congruence.
+    - intros e H; vm_compute in H; in_list H; vm_compute; discriminate.
+    - intros e H; vm_compute in H; in_list H; vm_compute; intuition discriminate.
+    - intros n H; vm_compute in H; in_list H; vm_compute; apply Permutation_refl.
+    - intros n H; vm_compute in H; in_list H; vm_compute; apply Permutation_refl.
+    - discriminate.
+    - intros _; constructor.
+      + intros n H; vm_compute in H; in_list H.
+        * exists x, 0%Z; vm_compute; repeat split; reflexivity.
+        * exists y, 0%Z; vm_compute; repeat split; reflexivity.
+      + vm_compute; repeat constructor.
+      + vm_compute; repeat constructor.
+      + intros e H; vm_compute in H; in_list H. exists 0%Z, 0%Z; vm_compute; repeat split; discriminate.
+  Qed.
+
+  (** a time-series node whose [time_lag] tag was deleted behind the graph's back: the
+      property accessor raises ValueError, in both argument orders; when the variable names
+      already differ the lags are not read and the answer is [False] *)
+  Definition strip_lag (g : graph) : graph :=
+    {| gnodes := map (fun n => {| nid := nid n; nvt := nvt n;
+                                  nmeta := remove_key k_time_lag (nmeta n);
+                                  ninb := ninb n; noutb := noutb n |}) (gnodes g);
+       gsrc := gsrc g; gdst := gdst g; gmeta := gmeta g; glag := glag g; gvar := gvar g |}.
+  Definition g_x := mk TS [OAddNode x VUnspec None].
+  Example missing_tag_raises :
+    graph_eqb TS false g_x (strip_lag g_x) = Err EValue
+    /\ graph_eqb TS false (strip_lag g_x) g_x = Err EValue.
+  Proof. vm_compute; split; reflexivity. Qed.
+
+  (** node and edge comparison *)
+  Example edge_examples :
+    let e1 := {| esrc := x; edst := y; ety := Bi; emeta := [] |} in
+    let e2 := {| esrc := y; edst := x; ety := Bi; emeta := [] |} in
+    let e3 := {| esrc := y; edst := x; ety := UnkUnd; emeta := [] |} in
+    let e4 := {| esrc := x; edst := y; ety := UnkUnd; emeta := [] |} in
+    edge_pair_test e1 e2 = true /\ edge_pair_test e3 e4 = false /\ edge_pair_test e1 e4 = false.
+  Proof. vm_compute; repeat split; reflexivity. Qed.
+End EqualityExamples.
+
+(** * Deep comparison of edges implies shallow comparison *)
+Theorem edge_deep_implies_shallow k g h e e' :
+  edge_eqb k true g h e e' = Ok true -> edge_eqb k false g h e e' = Ok true.
+Proof.
+  intros H; apply edge_eqb_deep_true in H; destruct H as [H _].
+  rewrite edge_eqb_shallow, H; reflexivity.
+Qed.
+
+(** non-vacuity of the hypothesis [equiv] of [graph_eq_order_independent]: two states that differ
+    in the insertion order of their edges *)
+Module EquivExample.
+  Import EqualityExamples.
+  Definition g1 := mk Plain [OAddNodesFrom [x; y; z]; ae x y Und None; ae y z Dir None].
+  Definition g2 := mk Plain [OAddNodesFrom [x; y; z]; ae y z Dir None; ae x y Und None].
+  Example g1_inv : Inv Names.parse Plain g1. Proof. prove_inv. Qed.
+  Example g2_inv : Inv Names.parse Plain g2. Proof. prove_inv. Qed.
+  Example g1_equiv_g2 : equiv g1 g2 /\ gsrc g1 <> gsrc g2.
+  Proof.
+    split; [|vm_compute; discriminate].
+    unfold equiv; vm_compute; repeat split.
+    - repeat constructor.
+    - apply perm_swap.
+    - apply perm_swap.
+  Qed.
+  Example order_independent_instance :
+    graph_eqb Plain true g1 g_und = Ok true /\ graph_eqb Plain true g2 g_und = Ok true.
+  Proof. vm_compute; split; reflexivity. Qed.
+End EquivExample.
